@@ -123,6 +123,7 @@ class C17(Engine):
     quick_budget = 45
     quick_runs = 4000
     thorough_budget = 1200
+    variants = ("small",)
     rule = ("run i = real naken_asm writes a seeded image in one of 8 formats (ti-txt rendered by the harness) -> simulated disk "
             "damage (cut / bit flip / byte / zeroed or duplicated 512-byte sector / header field set to an extreme / dropped, "
             "duplicated, over-long or junk text record) -> one forked naken_util lifetime with a seeded command line (68 CPU "
@@ -137,6 +138,12 @@ class C17(Engine):
         return len(FORMATS) * 4
 
     def plan(self, rng, index):
+        plan = self._plan(rng, index)
+        # every third run uses the small-page / small-pool build of /repo
+        plan["build"] = "small" if index % 3 == 2 else "san"
+        return plan
+
+    def _plan(self, rng, index):
         if index >= self.directed() and rng.chance(1, 12):
             return self.port_plan(rng)
         fmt, ext = FORMATS[index % len(FORMATS)] if index < self.directed() else rng.pick(FORMATS)
@@ -267,6 +274,7 @@ class C17(Engine):
 
     def run(self, ex, plan):
         res = RunResult()
+        ex = self.variant(ex, plan.get("build"))
         fmt = plan["fmt"]
         tag = "%s:%s" % (fmt, plan["mode"])
         data = None
